@@ -582,3 +582,84 @@ pub fn c06_lookups(o: &Opts) -> i32 {
     out.flush().unwrap();
     0
 }
+
+// ------------------------------------------------------------------------------------ C17
+
+fn dims_expr(d: &Dimensionality) -> String {
+    if d.is_dimensionless() { return "1".into(); }
+    d.iter().map(|(k, p)| if *p == 1 { k.to_string() } else { format!("{}^{}", k, p) }).collect::<Vec<_>>().join(" ")
+}
+
+pub fn run_c17(o: &Opts) -> i32 {
+    let db = Db::new();
+    let reg = &db.ctx.registry;
+    let mut rng = Rng::new(o.seed);
+    let mut req = o.writer("req.txt");
+    let mut aux = o.writer("aux.txt");
+    let mut total = 0u64;
+    let mut samples = vec![];
+    // expected members of `units for X`, computed without the UnitsFor arm
+    let expected = |x: &Dimensionality| -> Vec<(String, Option<String>)> {
+        let mut v: Vec<(String, Option<String>)> = reg.units.iter()
+            .filter(|(n, u)| u.unit == *x && !matches!(reg.definitions.get(*n), Some(rink_core::ast::Expr::Unit { .. })))
+            .map(|(n, _)| (n.clone(), reg.categories.get(n).and_then(|c| reg.category_names.get(c)).cloned())).collect();
+        if let Some((b, 1)) = x.as_single() {
+            let n = db.ctx.canonicalize(b.as_str()).unwrap_or_else(|| b.to_string());
+            let c = reg.categories.get(&n).and_then(|c| reg.category_names.get(c)).cloned();
+            v.push((n, c));
+        }
+        v
+    };
+    let qdims: BTreeMap<String, Dimensionality> = reg.quantities.iter().map(|(d, n)| (n.clone(), d.clone())).collect();
+    let score = |d: &Dimensionality| -> i64 { d.iter().map(|(_, p)| 1 + p.abs()).sum() };
+    let mut emit = |text: String, kind: &str, x: &Dimensionality, pair: Option<u64>, total: &mut u64, samples: &mut Vec<String>| -> u64 {
+        writeln!(req, "{}", req_line(&text)).unwrap();
+        let exp: Vec<serde_json::Value> = if kind == "unitsfor" { expected(x).into_iter().map(|(n, c)| json!([n, c])).collect() } else { vec![] };
+        let qd: serde_json::Map<String, serde_json::Value> = if kind == "factorize" { qdims.iter().map(|(n, d)| (n.clone(), json!(fmt_dim(d)))).collect() } else { serde_json::Map::new() };
+        let _ = qd;
+        writeln!(aux, "{}", json!({"kind": kind, "x": fmt_dim(x), "expected": exp, "pair": pair})).unwrap();
+        *total += 1;
+        if samples.len() < 10 && *total % 37 == 1 { samples.push(text); }
+        *total - 1
+    };
+    // quantity dims table once, in stats (the oracle needs dims of every quantity name)
+    let qtable: serde_json::Map<String, serde_json::Value> = qdims.iter().map(|(n, d)| (crate::evalsess::enc_name(n), json!(fmt_dim(d)))).collect();
+    // corpus
+    for t in ["units for m^2", "units for 1 / s", "factorize A s", "factorize kg / m s^2", "units for length", "factorize velocity"] {
+        let kind = if t.starts_with("units") { "unitsfor" } else { "factorize" };
+        let body = if kind == "unitsfor" { &t["units for ".len()..] } else { &t["factorize ".len()..] };
+        let d = qdims.get(body).cloned().or_else(|| eval_number(&db.ctx, body).map(|n| n.unit));
+        if let Some(d) = d { emit(t.to_string(), kind, &d, None, &mut total, &mut samples); }
+    }
+    // every named quantity: by name and by an expression of that dimensionality
+    for (name, d) in &qdims {
+        let i = emit(format!("units for {}", name), "unitsfor", d, None, &mut total, &mut samples);
+        emit(format!("units for {}", dims_expr(d)), "unitsfor", d, Some(i), &mut total, &mut samples);
+        if score(d) <= if o.thorough { 8 } else { 6 } {
+            let j = emit(format!("factorize {}", name), "factorize", d, None, &mut total, &mut samples);
+            emit(format!("factorize {}", dims_expr(d)), "factorize", d, Some(j), &mut total, &mut samples);
+        }
+    }
+    // every dimensionality occurring in the database
+    let all_dims: Vec<Dimensionality> = { let mut s = std::collections::BTreeSet::new(); for u in reg.units.values() { s.insert(u.unit.clone()); } s.into_iter().collect() };
+    for d in &all_dims {
+        if !o.thorough && !rng.chance(1, 3) { continue; }
+        emit(format!("units for {}", dims_expr(d)), "unitsfor", d, None, &mut total, &mut samples);
+        if score(d) <= if o.thorough { 7 } else { 5 } { emit(format!("factorize {}", dims_expr(d)), "factorize", d, None, &mut total, &mut samples); }
+    }
+    // random products of base units with exponents -3..3
+    let bases: Vec<String> = reg.base_units.iter().map(|b| b.to_string()).collect();
+    let nr = if o.thorough { 600 } else { 80 };
+    for _ in 0..nr {
+        let k = 1 + rng.below(3);
+        let mut m: BTreeMap<String, i64> = BTreeMap::new();
+        for _ in 0..k { let e = rng.range(-3, 3); if e != 0 { m.insert(rng.pick(&bases).clone(), e); } }
+        let d: Dimensionality = m.iter().map(|(k, p)| (rink_core::types::BaseUnit::new(k), *p)).collect();
+        emit(format!("units for {}", dims_expr(&d)), "unitsfor", &d, None, &mut total, &mut samples);
+        if score(&d) <= 5 { emit(format!("factorize {}", dims_expr(&d)), "factorize", &d, None, &mut total, &mut samples); }
+    }
+    drop(emit);
+    req.flush().unwrap(); aux.flush().unwrap();
+    crate::util::write_json(&format!("{}/stats.json", o.out), &json!({"total": total, "quantities": qdims.len(), "dimensionalities": all_dims.len(), "samples": samples, "quantity_dims": qtable}));
+    0
+}
